@@ -38,7 +38,11 @@ def dump(ns):
 
 before = dump(ns)
 results = []
-for name, args in calls:
+for call in calls:
+    name, args = call[0], call[1]
+    if len(call) > 2 and call[2] is not None:
+        # call(..., inputs=[...]) REPLACES what is left of the input queue (followed by pedal's default '0')
+        sys.stdin = io.StringIO(''.join(i + '\n' for i in list(call[2]) + ['0'] * 400))
     if not callable(ns.get(name)):
         results.append(['undefined', name])
         continue
